@@ -1,10 +1,161 @@
-/- Line-protocol handlers for C14 (placeholder until the property is built). -/
-import PandoraModel.Model.Basic
+/- Line-protocol handlers for C14 (occlusion / mismatch filling): model AND spec evaluation. -/
+import PandoraModel.Model.Interp
+import PandoraModel.Model.InterpRepaired
 
 namespace Pandora.Driver.C14
 open Lean (Json)
+open Pandora Pandora.Interp
 
-def handle (op : String) (_j : Json) : Except String Json :=
-  throw s!"unknown op {op}"
+/-- a map from two nested JSON arrays (cells outside the arrays read as NaN / 0) -/
+def dmapOf (disp : Grid Val) (flag : Grid Nat) : DMap :=
+  let da : Array (Array Val) := (disp.map List.toArray).toArray
+  let fa : Array (Array Nat) := (flag.map List.toArray).toArray
+  { rows := fa.size
+    cols := (fa.getD 0 #[]).size
+    disp := fun r c => (da.getD r #[]).getD c Val.nan
+    flag := fun r c => (fa.getD r #[]).getD c 0 }
+
+def dmapOfJson (j : Json) (kd kf : String) : Except String DMap := do
+  let disp ← field j kd >>= gridOfJson valOfJson
+  let flag ← field j kf >>= gridOfJson natOfJson
+  if disp.length != flag.length || (disp.zip flag).any (fun p => p.1.length != p.2.length) then
+    throw "disparity map and validity mask have different shapes"
+  if flag.any (fun row => row.length != (flag.headD []).length) then throw "ragged map"
+  return dmapOf disp flag
+
+def tab {α} (m : DMap) (f : Nat → Nat → α) : Grid α :=
+  (List.range m.rows).map fun r => (List.range m.cols).map fun c => f r c
+
+/-- evaluate every cell once, so that the second pass does not re-run the first one per lookup -/
+def materialise (m : DMap) : DMap := dmapOf (tab m m.disp) (tab m m.flag)
+
+def dmapToJson (m : DMap) : List (String × Json) :=
+  [("disp", gridToJson valToJson (tab m m.disp)), ("flag", gridToJson natToJson (tab m m.flag))]
+
+def methodOfJson (j : Json) : Except String Method := do
+  match ← field j "method" >>= strOfJson with
+  | "mc-cnn" => pure .mccnn
+  | "sgm" => pure .sgm
+  | s => throw s!"unknown method {s}"
+
+def wfJson (meth : Method) (off : Nat) (a : DMap) : Json :=
+  mkObj [("valid_finite", Json.bool (validFinite a)), ("one_flag", Json.bool (oneFlag a)),
+         ("no_stale_fill", Json.bool (noStaleFill meth a)), ("border_clean", Json.bool (borderClean off a)),
+         ("wf", Json.bool (wf meth off a))]
+
+def variantOfJson (j : Json) : Option Repaired.Variant :=
+  match fieldD j "variant" (Json.str "") with
+  | Json.str "as_coded_r" => some { guard := false, bitops := false }
+  | Json.str "guard" => some { guard := true, bitops := false }
+  | Json.str "bitops" => some { guard := false, bitops := true }
+  | Json.str "guard+bitops" => some { guard := true, bitops := true }
+  | _ => none
+
+/-- the repaired variants (executable only), first pass tabulated once -/
+def runVariant (v : Repaired.Variant) (meth : Method) (off : Nat) (a : DMap) : DMap :=
+  match meth with
+  | .mccnn => maskBorder off (Repaired.lift (Repaired.mismMcPixel v) (materialise (Repaired.lift (Repaired.occlMcPixel v) a)))
+  | .sgm => Repaired.lift (Repaired.occlSgmPixel v) (materialise (Repaired.lift (Repaired.mismSgmPixel v) a))
+
+/-- the whole `interpolated_disparity` of the model, the map between the two passes, the situation
+    (`trigger`) of every pixel -/
+def run (j : Json) : Except String Json := do
+  let meth ← methodOfJson j
+  let off ← field j "offset" >>= natOfJson
+  let a ← dmapOfJson j "disp" "flag"
+  let mid := materialise (firstPass meth a)
+  -- "direct": the function the theorems are about, evaluated as it stands.  "materialised": the first
+  -- pass is tabulated once (same rows/cols, same cells inside the image) before the second pass runs;
+  -- used for large maps, and compared with "direct" on the small ones by the harness.
+  let via := match fieldD j "via" (Json.str "auto") with
+    | Json.str "direct" => true
+    | Json.str "materialised" => false
+    | _ => a.rows * a.cols ≤ 120
+  let out := match variantOfJson j with
+    | some v => if via then Repaired.interpolate v meth off a else runVariant v meth off a
+    | none =>
+      if via then interpolate meth off a else
+      match meth with
+      | .mccnn => maskBorder off (mismMc mid)
+      | .sgm => occlSgm mid
+  let trig := tab a fun r c => Json.str (triggerAt meth a mid r c)
+  let kinds := tab a fun r c => Json.str (match kindOf meth a r c with
+    | .none => "" | .occl => "occl" | .mism => "mism" | .mismAsOccl => "mism_as_occl")
+  -- sgm: pixels whose second-lowest |d| is tied between +q and −q (the sign is fixed by the sort's stability only)
+  let ties := tab a fun r c =>
+    match meth, kindOf meth a r c, out.disp r c with
+    | .sgm, .occl, .num q | .sgm, .mismAsOccl, .num q =>
+      let src := nums (sourcesSgm mid r c)
+      Json.bool (q != 0 && src.contains q && src.contains (-q))
+    | _, _, _ => Json.bool false
+  return mkObj (dmapToJson out ++
+    [("sign_tie", gridToJson id ties), ("mid_disp", gridToJson valToJson (tab mid mid.disp)), ("mid_flag", gridToJson natToJson (tab mid mid.flag)),
+     ("trigger", gridToJson id trig), ("kind", gridToJson id kinds), ("wf", wfJson meth off a)])
+
+/-- one numba kernel of the model on its own -/
+def kernel (j : Json) : Except String Json := do
+  let k ← field j "kernel" >>= strOfJson
+  let a ← dmapOfJson j "disp" "flag"
+  match variantOfJson j, k with
+  | some v, "occlusion_mc_cnn" => return mkObj (dmapToJson (Repaired.lift (Repaired.occlMcPixel v) a))
+  | some v, "mismatch_mc_cnn" => return mkObj (dmapToJson (Repaired.lift (Repaired.mismMcPixel v) a))
+  | some v, "mismatch_sgm" => return mkObj (dmapToJson (Repaired.lift (Repaired.mismSgmPixel v) a))
+  | some v, "occlusion_sgm" => return mkObj (dmapToJson (Repaired.lift (Repaired.occlSgmPixel v) a))
+  | _, _ => pure ()
+  match k with
+  | "occlusion_mc_cnn" => return mkObj (dmapToJson (occlMc a))
+  | "mismatch_mc_cnn" => return mkObj (dmapToJson (mismMc a))
+  | "mismatch_sgm" => return mkObj (dmapToJson (mismSgm a))
+  | "occlusion_sgm" => return mkObj (dmapToJson (occlSgm a))
+  | "find_valid_neighbors" =>
+    return mkObj [("neighbors", Json.arr ((tab a fun r c => listToJson valToJson (findValidNeighbors a r c)).map
+      (fun row => Json.arr row.toArray)).toArray)]
+  | _ => throw s!"unknown kernel {k}"
+
+/-- the specification evaluated on (input, output): failing clauses with their pixel and trigger,
+    and how often each clause applied -/
+def specOp (j : Json) : Except String Json := do
+  let meth ← methodOfJson j
+  let off ← field j "offset" >>= natOfJson
+  let a ← dmapOfJson j "disp" "flag"
+  let b ← dmapOfJson j "out_disp" "out_flag"
+  let mid := materialise (firstPass meth a)
+  let mut fails : Array Json := #[]
+  let mut hits : List (String × Nat) := []
+  for r in List.range a.rows do
+    for c in List.range a.cols do
+      for cl in clausesAt meth off a b r c do
+        if cl.applies then
+          hits := match hits.find? (fun h => h.1 == cl.name) with
+            | some _ => hits.map (fun h => if h.1 == cl.name then (h.1, h.2 + 1) else h)
+            | none => hits ++ [(cl.name, 1)]
+          if !cl.holds then
+            fails := fails.push (mkObj [("clause", Json.str cl.name), ("r", natToJson r), ("c", natToJson c),
+              ("trigger", Json.str (triggerAt meth a mid r c)),
+              ("sources", listToJson ratToJson (sourcesOf meth a b r c)),
+              ("in", Json.arr #[valToJson (a.disp r c), natToJson (a.flag r c)]),
+              ("out", Json.arr #[valToJson (b.disp r c), natToJson (b.flag r c)])])
+  let shapeOK := b.rows == a.rows && b.cols == a.cols
+  return mkObj [("ok", Json.bool (spec meth off a b)), ("shape_ok", Json.bool shapeOK),
+    ("failures", Json.arr fails), ("hits", mkObj (hits.map fun h => (h.1, natToJson h.2))),
+    ("wf", wfJson meth off a), ("no_trigger", Json.bool (noTrigger meth a))]
+
+def constants : Json :=
+  mkObj [("PANDORA_MSK_PIXEL_INVALID", natToJson Flags.pixelInvalid),
+         ("PANDORA_MSK_PIXEL_LEFT_NODATA_OR_BORDER", natToJson Flags.leftNodataOrBorder),
+         ("PANDORA_MSK_PIXEL_FILLED_OCCLUSION", natToJson Flags.filledOcclusion),
+         ("PANDORA_MSK_PIXEL_FILLED_MISMATCH", natToJson Flags.filledMismatch),
+         ("PANDORA_MSK_PIXEL_OCCLUSION", natToJson Flags.occlusion),
+         ("PANDORA_MSK_PIXEL_MISMATCH", natToJson Flags.mismatch),
+         ("dirs16_doubled", listToJson (fun d : Int × Int => Json.arr #[intToJson d.1, intToJson d.2]) dirs16),
+         ("dirs8", listToJson (fun d : Int × Int => Json.arr #[intToJson d.1, intToJson d.2]) dirs8)]
+
+def handle (op : String) (j : Json) : Except String Json :=
+  match op with
+  | "C14.run" => run j
+  | "C14.kernel" => kernel j
+  | "C14.spec" => specOp j
+  | "C14.constants" => pure constants
+  | _ => throw s!"unknown op {op}"
 
 end Pandora.Driver.C14
